@@ -80,21 +80,21 @@ var c11OpTemplates = []string{
 	"println(1 << u)", "println(uint8(1) << u)", "println(int64(1) << sh)", "var c T = 1 << u; println(c)", "println(f / g, f * g, f - g, f + g)", "println(f < g, f == g, f != f)", "println(h * h, float32(f))", "println(int(f), int64(g), uint(f), uint8(g), int8(f), uint64(g))",
 	"println(s[i])", "println(s[i:j])", "println(s[i:])", "println(s[:j])", "println(len(s+t), s+t == t+s, s < t)", "println(string(rune(i)), string(rune(a)))", "println([]byte(s)[i])", "println([]rune(s)[i])", "for x, r := range s { _, _ = x, r }; println(len(s))",
 	"println(xs[i])", "xs[i] = j; println(xs[i])", "println(len(xs[i:j]))", "println(len(xs[i:j:k]), cap(xs[i:j:k]))", "println(len(xs[:j]), cap(xs[i:]))", "xs = append(xs[:i], xs[j:]...); println(len(xs))", "println(copy(xs[i:], xs[j:]))", "xs = xs[:k]; println(len(xs))",
-	"println(arr[i])", "arr[i] = 1; println(arr[i])", "println(len(arr[i:j]))", "pa := &arr; println(pa[i], len(pa[i:j]))", "var pa *[4]int; println(len(pa)); println(pa[i])", "pa := (*[4]int)(xs); println(pa[i])", "ar := [4]int(xs); println(ar[i])", "println(bs[i], string(bs[i:j]))",
+	"println(arr[i])", "arr[i] = 1; println(arr[i])", "println(len(arr[i:j]))", "pa := &arr; println(pa[i], len(pa[i:j]))", "var pa *[4]int; println(len(pa)); println(pa[i])", "println(bs[i], string(bs[i:j]))",
 	"println(m[s])", "m[s] = i; println(len(m))", "mnil[s] = i", "println(mnil[s], len(mnil))", "delete(mnil, s); delete(m, s); println(len(m))", "for k2, v := range m { m[k2+\"x\"] = v; delete(m, k2) }; println(len(m) >= 0)", "v, ok := m[t]; println(v, ok)",
 	"println(p.A, p.B)", "println(pnil.A)", "pnil.A = 1", "println(pnil.Get())", "pnil.Set(1)", "println((*pnil).A)", "println(p.P.A)", "p.P = p; println(p.P.P.P.A)", "println(p.F(i))", "println(p.M[s]); p.M[s] = 1", "println(p.X[i])", "q := *p; q.A = i; println(p.A == q.A)",
-	"println(fn(i))", "println(fnil(i))", "defer fnil(i)", "defer fn(i)", "go fn(i)", "println(it.Get())", "var it2 I; println(it2.Get())", "it = pnil; println(it.Get())", "println(e.(int))", "println(e.(string))", "println(e.(I).Get())", "v, ok := e.(I); println(v == nil, ok)", "println(e.(interface{ Foo() }))",
-	"println(e == e)", "var e2 interface{} = xs; println(e2 == e2)", "var e2 interface{} = m; println(e == e2)", "var e2 interface{} = fn; println(e2 == e2)", "var e2 interface{} = S{}; println(e2 == e2)", "me := map[interface{}]int{}; me[e] = 1; println(len(me))", "me := map[interface{}]int{}; me[xs] = 1",
-	"me := map[interface{}]int{}; me[S{}] = 1", "me := map[interface{}]int{}; me[[1]interface{}{xs}] = 1", "me := map[[2]string]int{}; me[[2]string{s, t}] = 1; println(me[[2]string{s, t}])", "me := map[S]int{}; _ = me", "println(err.Error())", "err = E{i}; println(err.Error(), err == E{i})",
+	"println(fn(i))", "println(fnil(i))", "defer fnil(i)", "defer fn(i)", "println(it.Get())", "var it2 I; println(it2.Get())", "it = pnil; println(it.Get())", "println(e.(int))", "println(e.(string))", "println(e.(I).Get())", "v, ok := e.(I); println(v == nil, ok)", "println(e.(interface{ Foo() }))",
+	"println(e == e)", "var e2 interface{} = xs; println(e2 == e2)", "var e2 interface{} = m; println(e == e2)", "var e2 interface{} = fn; println(e2 == e2)", "me := map[interface{}]int{}; me[e] = 1; println(len(me))", "me := map[interface{}]int{}; me[xs] = 1",
+	"me := map[interface{}]int{}; me[[1]interface{}{xs}] = 1", "me := map[[2]string]int{}; me[[2]string{s, t}] = 1; println(me[[2]string{s, t}])", "println(err.Error())", "err = E{i}; println(err.Error(), err == E{i})",
 	"panic(err)", "panic(e)", "panic(p)", "panic(xs)", "panic(m)", "panic(fn)", "panic(f)", "panic(a)", "panic(nil)", "panic(it)", "panic(arr)", "panic(S{})", "panic(&arr)", "panic(E{i})", "panic([]interface{}{e, xs, m, p, fn})", "panic(struct{ a interface{} }{e})",
 	"println(p, xs, m, arr, e, fn, it, err)", "println(pnil, mnil, fnil)", "print(a, f, s, h, '\\n')", "println(S{}, &S{}, []S{{}}, map[string]S{\"a\": {}})", "println([]interface{}{e, nil, 1, \"s\", 1.5})",
 	"switch { case a > b: println(1); fallthrough; case a < b: println(2); default: println(3) }", "switch x := e.(type) { case int: println(x + 1); case string: println(x + \"s\"); case nil: println(\"nil\"); case I, error: println(x != nil); default: println(\"other\") }",
-	"for i2 := range xs { xs = append(xs, i2); if len(xs) > 100 { break } }; println(len(xs))", "for i2, v := range arr { arr[(i2+1)%4] = v + 1 }; println(arr[0])", "for i2 := range i { if i2 > 3 { break } }; println(1)", "for k2 := range mnil { println(k2) }",
+	"for i2 := range xs { xs = append(xs, i2); if len(xs) > 100 { break } }; println(len(xs))", "for i2, v := range arr { arr[(i2+1)%4] = v + 1 }; println(arr[0])", "for k2 := range mnil { println(k2) }",
 	"var fs []func() int; for i2 := 0; i2 < 3; i2++ { fs = append(fs, func() int { return i2 }) }; println(fs[0](), fs[2]())", "x := 0; defer func() { x++; println(x) }(); func() { defer func() { recover(); x += 10 }(); panic(x) }()",
 	"func() { defer func() { println(recover()) }(); defer func() { panic(\"second\") }(); panic(\"first\") }()", "func() { defer func() { recover(); recover() }(); panic(1) }()", "r := recover(); println(r)", "func() { defer recover(); panic(1) }()", "func() { defer println(recover()); panic(1) }()",
 	"func() (r int) { defer func() { r = r / id(0) }(); return 1 }()", "func() (r int) { defer func() { recover(); r = 7 }(); return xs[i] }()", "var z struct{}; var y [0]int; println(z == struct{}{}, len(y), y == [0]int{})", "type Z [0]func(); var z Z; println(len(z))",
 	"var aa [][]int; aa = append(aa, nil); aa[0] = append(aa[0], i); println(aa[0][0], len(aa[j]))", "mm := map[string]map[string]int{}; mm[s][t] = 1", "mm := map[string][]int{}; mm[s] = append(mm[s], i); println(mm[s][0])", "ms := map[string]*S{}; ms[s].A = 1", "ms := map[string]S{}; println(ms[s].A)",
-	"c := make(chan int); close(c)", "var c chan int; c <- 1", "select {}", "x, y := i, j; x, y = y, x; xs[x], xs[y] = xs[y], xs[x]; println(xs[0])", "i, xs[i] = j, k; println(i, xs[0])", "xs[i], i = k, j; println(i)", "p, p.A = pnil, 5", "var q *S; q, q.A = p, 5; println(q.A)",
+	"x, y := i, j; x, y = y, x; xs[x], xs[y] = xs[y], xs[x]; println(xs[0])", "i, xs[i] = j, k; println(i, xs[0])", "xs[i], i = k, j; println(i)", "p, p.A = pnil, 5", "var q *S; q, q.A = p, 5; println(q.A)",
 	"println(len(xs[j:i]))", "println(len(s[j:i]))", "println(xs[len(xs)])", "println(xs[-i])", "println(cap(xs[i:]) - len(xs))", "ys := xs[i:j]; ys = append(ys, 99); println(xs[j %% len(xs)])",
 	"var u8 uint8 = uint8(a); println(u8 + 200, u8 * u8, -u8)", "var i8 int8 = int8(a); println(i8 * i8, -i8, i8 / int8(b|1))", "x := a; x *= x; x *= x; x *= x; println(x)", "println(a*b/b == a)", "var d T; println(a / (d + b - b))", "println(i / j, i % j, k / (i - i))", "println(f / (g - g), int(f/(g-g)))",
 	"println(uint(i), uint32(j), int32(k << 31), uint16(i * j))", "println(string(rune(k)), string(rune(-1)), string(rune(0x10ffff+i)))", "println(strconv.Itoa(i), strconv.Quote(s))", "n, err2 := strconv.Atoi(s); println(n, err2)", "println(strings.Repeat(s, i))", "println(strings.Index(s, t), strings.Split(s, t), strings.Fields(s))",
@@ -110,7 +110,7 @@ var c11OpTemplates = []string{
 	"cy := []interface{}{nil}; cy[0] = cy; println(cy)", "cy := []interface{}{nil}; cy[0] = cy; panic(cy)", "cm := map[string]interface{}{}; cm[\"a\"] = cm; println(cm)", "cm := map[string]interface{}{}; cm[\"a\"] = cm; panic(cm)",
 	"cp := &S{}; cp.P = cp; println(cp, *cp)", "cp := &S{}; cp.P = cp; panic(cp)", "cp := &S{}; cp.P = cp; panic(*cp)", "var ce interface{}; ce = &ce; println(ce)", "var ce interface{}; ce = &ce; panic(ce)", "ca := [1]interface{}{}; ca[0] = &ca; println(ca); panic(ca)",
 	"type N struct{ v interface{} }; cn := &N{}; cn.v = cn; println(*cn == *cn); panic(*cn)", "type N struct{ v interface{} }; cn := &N{}; cn.v = cn; me := map[interface{}]int{}; me[*cn] = 1; println(len(me))", "cy := []interface{}{nil}; cy[0] = &cy; var e2 interface{} = cy[0]; println(e2 == e2)",
-	"println(s[i:j:k])", "println(it.(*S).A)", "println(it.(S).A)", "var n interface{}; println(n.(int))", "var n I; n.(*S).Set(1)", "f2 := it.Get; println(f2())", "f2 := pnil.Get; println(f2())", "f2 := S.Get; println(f2(S{A: i}))", "f2 := (*S).Set; f2(pnil, 1)", "f2 := I.Get; println(f2(it))", "var n I; f2 := n.Get; println(f2())",
+"println(it.(*S).A)", "println(it.(S).A)", "var n interface{}; println(n.(int))", "var n I; n.(*S).Set(1)", "f2 := it.Get; println(f2())", "f2 := pnil.Get; println(f2())", "f2 := S.Get; println(f2(S{A: i}))", "f2 := (*S).Set; f2(pnil, 1)", "f2 := I.Get; println(f2(it))", "var n I; f2 := n.Get; println(f2())",
 }
 
 func c11GenOps(rt *rapid.T) (string, []string) {
@@ -243,7 +243,7 @@ func c11GenFlow(rt *rapid.T) (string, []string) {
 				strings.NewReplacer(" A", fmt.Sprintf(" A%d", w), " B", fmt.Sprintf(" B%d", w), " C", fmt.Sprintf(" C%d", w)).Replace(kind),
 				map[bool]string{true: fmt.Sprintf("C%d:\n", w), false: ""}[kind == "goto C"])
 		case "rangeclosure":
-			over := c11Pick(rt, []string{"[]int{1, 2, 3}", "[3]int{1, 2, 3}", "\"abc\"", "map[int]int{1: 1}", "3", "&[2]int{1, 2}"}, l("over", 0))
+			over := c11Pick(rt, []string{"[]int{1, 2, 3}", "[3]int{1, 2, 3}", "\"abc\"", "map[int]int{1: 1}", "&[2]int{1, 2}"}, l("over", 0))
 			fmt.Fprintf(&b, "\t{\n\tvar fs []func() int\n\tfor k, v := range %s {\n\t\tk2 := k\n\t\tfs = append(fs, func() int { k2++; _ = v; return int(k2) })\n\t\tif k2 > 100 {\n\t\t\tcontinue\n\t\t}\n\t}\n\tfor _, f := range fs {\n\t\tprintln(f())\n\t}\n\t}\n", over)
 			if over == "3" {
 				s := b.String()
